@@ -853,6 +853,15 @@ func genTable(tier string, rng *RNG, emit func(Case)) {
 	// regression inputs
 	emit(linesCase("transform", [][]byte{[]byte("a"), []byte("|-|-|")}, true))
 	emit(Case{Op: "doc", Args: []string{hx([]byte("a\n|-|-|\n")), "table"}})
+	{ // one very wide table with many short rows: more than half a million padding cells in a single table
+		cols, rows := 1100, 520
+		var sb strings.Builder
+		sb.WriteString("|" + strings.Repeat("h|", cols) + "\n|" + strings.Repeat("-|", cols) + "\n")
+		for i := 0; i < rows; i++ {
+			sb.WriteString("|x|\n")
+		}
+		emit(Case{Op: "doc", Args: []string{hx([]byte(sb.String())), "table"}})
+	}
 	emit(Case{Op: "doc", Args: []string{hx([]byte("a\n|-|-|\nx|y\n")), "gfm"}})
 
 	delimMax, bodyMax, delim3, textMax := 4, 5, 4, 1
